@@ -71,20 +71,21 @@ type LoadSpec struct {
 }
 
 type Gen struct {
-	r       *Rng
-	o       GenOpts
-	units   []string
-	sb      strings.Builder
-	ind     int
-	globals []*gvar
-	locals  [][]*gvar
-	funcs   []*gfunc
-	nid     int
-	loop    int
-	inFunc  bool
-	stmts   int
-	budget  int
-	curFunc *gfunc
+	r        *Rng
+	o        GenOpts
+	units    []string
+	sb       strings.Builder
+	ind      int
+	globals  []*gvar
+	locals   [][]*gvar
+	funcs    []*gfunc
+	nid      int
+	loop     int
+	inFunc   bool
+	stmts    int
+	budget   int
+	curFunc  *gfunc
+	fieldSet int
 }
 
 func NewGen(r *Rng, o GenOpts) *Gen {
@@ -703,7 +704,35 @@ func (g *Gen) hostStmt() {
 	}
 }
 
+// structFieldSets: programs differ in the field names of their structs, and
+// error sites misspell them, so that "did you mean" hints and attribute
+// listings depend on the program — never on another program's structs.
+var structFieldSets = [][3]string{
+	{"a", "b", "c"}, {"alpha", "beta", "gamma"}, {"timeout", "name", "items"}, {"timeouts_ms", "names", "item"},
+	{"ab", "bc", "ca"}, {"alph", "bet", "gam"},
+}
+
+func (g *Gen) structFields() [3]string {
+	if g.fieldSet == 0 {
+		g.fieldSet = 1 + g.r.Intn(len(structFieldSets))
+	}
+	return structFieldSets[g.fieldSet-1]
+}
+
+var nearMissAttrs = []string{"aa", "alpha_", "timeouts", "nam", "itemz", "bc_", "gamm", "be", "appendd", "key", "encod", "valuez"}
+
 func (g *Gen) errorSite() {
+	switch g.r.Intn(11) {
+	case 8:
+		g.line("%s = %s.%s", g.fresh("e"), g.expr(kStruct, 0), g.r.Pick(nearMissAttrs))
+		return
+	case 9:
+		g.line("%s = %s.%s", g.fresh("e"), g.r.Pick([]string{"json", "math", "time"}), g.r.Pick([]string{"encod", "decodee", "sqr", "flor", "noww", "parse_tim"}))
+		return
+	case 10:
+		g.line("%s = hash(%s)", g.fresh("e"), g.expr(kListI, 0))
+		return
+	}
 	switch g.r.Intn(8) {
 	case 0:
 		g.line("%s = %s[%d]", g.fresh("e"), g.expr(kListI, 0), g.r.Range(50, 60))
@@ -798,6 +827,12 @@ func (g *Gen) expr(k kind, depth int) string {
 		case 7:
 			return fmt.Sprintf("(%s %% %d)", g.expr(kInt, d), g.r.Range(1, 9))
 		case 8:
+			switch g.r.Intn(4) {
+			case 0:
+				return fmt.Sprintf("hash(%s)", g.r.Pick([]string{"b\"short\"", "b\"a-bytes-literal-over-12-bytes\"", "b\"0123456789ab\"", "bytes(\"the quick brown fox jumps\")"}))
+			case 1:
+				return fmt.Sprintf("hash(bytes(%s))", g.expr(kStr, d))
+			}
 			return fmt.Sprintf("hash(%s)", g.expr(kStr, d))
 		case 9:
 			if len(g.funcs) > 0 {
@@ -846,6 +881,9 @@ func (g *Gen) expr(k kind, depth int) string {
 		case 9:
 			return fmt.Sprintf("%s[%d:%d]", g.expr(kStr, d), g.r.Range(-3, 3), g.r.Range(-3, 6))
 		case 10:
+			if g.r.Chance(1, 3) {
+				return fmt.Sprintf("str(bytes(%s)) + repr(b\"a-bytes-literal-over-12-bytes\"[%d:])", g.expr(kStr, d), g.r.Range(0, 5))
+			}
 			return fmt.Sprintf("str(dir(%s))", g.expr(g.randKind(), 0))
 		default:
 			return fmt.Sprintf("%s.replace(%s, %s)", g.expr(kStr, d), g.strLit(), g.strLit())
@@ -953,7 +991,8 @@ func (g *Gen) expr(k kind, depth int) string {
 		}
 		return fmt.Sprintf("tuple([%s, %s])", g.expr(kInt, d), g.expr(kStr, d))
 	case kStruct:
-		return fmt.Sprintf("struct(a=%s, b=%s, c=%s)", g.expr(kInt, d), g.expr(kStr, d), g.expr(kListI, d))
+		f := g.structFields()
+		return fmt.Sprintf("struct(%s=%s, %s=%s, %s=%s)", f[0], g.expr(kInt, d), f[1], g.expr(kStr, d), f[2], g.expr(kListI, d))
 	}
 	return "None"
 }
@@ -1009,7 +1048,8 @@ func (g *Gen) literal(k kind) string {
 	case kTup:
 		return fmt.Sprintf("(%s, %s)", g.intLit(), g.strLit())
 	case kStruct:
-		return fmt.Sprintf("struct(a=%s, b=%s, c=[])", g.intLit(), g.strLit())
+		f := g.structFields()
+		return fmt.Sprintf("struct(%s=%s, %s=%s, %s=[])", f[0], g.intLit(), f[1], g.strLit(), f[2])
 	}
 	return "None"
 }
